@@ -2,6 +2,7 @@ package band
 
 import (
 	"encoding/binary"
+	"errors"
 	"time"
 
 	"github.com/brocaar/lorawan"
@@ -35,6 +36,10 @@ func (b *cn470Band) GetDefaultMaxUplinkEIRP() float32 {
 }
 
 func (b *cn470Band) GetPingSlotFrequency(devAddr lorawan.DevAddr, beaconTime time.Duration) (uint32, error) {
+	if beaconTime < 0 {
+		return 0, errors.New("lorawan/band: beacon time must not be negative")
+	}
+
 	downlinkChannel := (int(binary.BigEndian.Uint32(devAddr[:])) + int(beaconTime/(128*time.Second))) % 8
 	return []uint32{
 		508300000,
